@@ -39,6 +39,19 @@ def snapshot(tf, with_data):
         for ch in g.channels():
             d = {'len': len(ch), 'dtype': str(ch.dtype), 'type': None if ch.data_type is None else ch.data_type.__name__,
                  'props': repr(sorted((k, repr(v)) for k, v in ch.properties.items()))}
+            if with_data == 'lazy':
+                # lazily opened file: chunk stream shape and a window that starts inside a chunk
+                try:
+                    d['chunk_lengths'] = [len(c) for c in ch.data_chunks()]
+                    n0 = len(ch)
+                    if n0 >= 2 and ch.data_type is not None:
+                        w = ch.read_data(1, n0 - 1)
+                        d['window'] = list(w) if ch.data_type.__name__ == 'String' else (
+                            _to_vals('ts', w) if ch.data_type.__name__ == 'TimeStamp' else np.asarray(w).tobytes())
+                        mid = ch[n0 // 2]
+                        d['index'] = repr(mid)
+                except Exception as e:      # noqa
+                    d['lazy_error'] = type(e).__name__
             if with_data:
                 arr = ch[:]
                 d['n'] = len(arr)
@@ -98,7 +111,7 @@ def check(case, rec):
                             if ok:
                                 for clause, msg in res:
                                     rec.violation('%s:%s:%s' % (tag, api, clause), msg)
-                    ok, sn = rec.guard('%s:%s' % (tag, api), lambda: snapshot(tf, api != 'read_metadata'))
+                    ok, sn = rec.guard('%s:%s' % (tag, api), lambda: snapshot(tf, 'lazy' if api == 'open' else api != 'read_metadata'))
                     if ok:
                         snaps[(have_index, api)] = sn
                 finally:
@@ -189,7 +202,7 @@ def check_writer_index(case, rec):
                 if not ok:
                     continue
                 try:
-                    ok, sn = rec.guard('writer_index:%s' % api, lambda: snapshot(tf, api != 'read_metadata'))
+                    ok, sn = rec.guard('writer_index:%s' % api, lambda: snapshot(tf, 'lazy' if api == 'open' else api != 'read_metadata'))
                     if ok:
                         snaps[(have_index, api)] = sn
                 finally:
